@@ -56,6 +56,7 @@ func C04(r *core.Run) {
 	boundPolarity(r)
 	extStructCompat(r)
 	jsonNameProvenance(r)
+	requiredProvenance(r)
 	nameAffinity(r, convRel, "fields.go")
 	nameAffinity(r, schemaRel, "schema_from_proto.go")
 	fieldAttributes(r) // name, JSON name, number and the optional marker: what the reader recovers them from
